@@ -66,6 +66,7 @@ package evalfilter
 //@ func (e *Eval) compile(node ast.Node) (err error)
 //@   requires e.functions != nil
 //@   ensures @C13 compile.propagate: nerrs() > old(nerrs()) ==> err != nil
+//@   ensures @C13 compile.call.named: err == nil && istype(node, *ast.CallExpression) ==> istype(node.(*ast.CallExpression).Function, *ast.Identifier)
 //@   ensures compile.errs.mono: nerrs() >= old(nerrs())
 //@   ensures @C18 compile.len: len(e.instructions) >= old(len(e.instructions)) && (arr(e.instructions) == old(arr(e.instructions)) || fresh(e.instructions))
 //@   ensures @C18 compile.prefix: forall i in 0..old(len(e.instructions)) :: e.instructions[i] == old(e.instructions[i])
